@@ -43,6 +43,18 @@ class Tracer:
 MODEL_TAMPER = {"payload_pickled": "payload_type", "hmac_pickled": "hmac_type"}
 
 
+def _model_steps(steps: list[dict]) -> list[dict]:
+    """Disk steps in the vocabulary of the Lean model (its signature is a function of the PAIR (key, payload): a signed entry replayed under
+    another key with a shifted payload is, there, a changed payload under a signature that does not match)."""
+    out = []
+    for st in steps:
+        if st["t"] == "replay_shifted":
+            out += [{"t": "payload_flip", "k": st["k"]}, {"t": "hmac_garbage", "k": st["k"]}]
+        else:
+            out.append(dict(st, t=MODEL_TAMPER.get(st["t"], st["t"])))
+    return out
+
+
 class RecordingCache:
     """Wraps a real backend; records every get/set with its outcome (for the LRU correspondence)."""
 
@@ -319,6 +331,11 @@ class C09(Prop):
                         steps.append({"t": rng.choice(TAMPERS), "k": k})
                     else:
                         steps.append({"t": "get", "k": k})
+                if rng.random() < 0.35:
+                    # a correctly signed entry of "k1" / "k2" REPLAYED under the shorter key "k", the cut-off character moved into the payload:
+                    # key and payload are signed as a pair, not as their concatenation
+                    src = rng.choice(keys)
+                    steps += [{"t": "set", "k": src, "v": rng.randint(0, 9)}, {"t": "replay_shifted", "k": "k", "src": src}, {"t": "get", "k": "k"}]
                 steps.append({"t": "get", "k": "k1"})
                 steps.append({"t": "get", "k": "k2"})
                 yield {"kind": "disk", "steps": steps}
@@ -525,6 +542,14 @@ class C09(Prop):
                         gets.append({"hit": enc_val(v) if hit else {"miss": 1}, "unpickled": len(spy.loads_calls) + len(FIRED) > before, "raised": None})
                     except Exception as e:  # noqa: BLE001
                         gets.append({"hit": {"miss": 1}, "unpickled": len(spy.loads_calls) + len(FIRED) > before, "raised": type(e).__name__})
+                elif t == "replay_shifted":
+                    payload, sig = raw.get(s["src"], default=None), raw.get(s["src"] + ":hmac", default=None)
+                    if isinstance(payload, bytes) and isinstance(sig, str):
+                        raw.set(k, s["src"][len(k):].encode() + payload)
+                        raw.set(k + ":hmac", sig)
+                    else:
+                        raw.set(k, bytes([9, 9, 9, 7]))
+                        raw.set(k + ":hmac", "garbage")
                 elif t == "payload_pickled":
                     raw.set(k, Tracer("payload"))       # the row rewritten in the store's own pickle mode: fetching it would unpickle it
                 elif t == "hmac_pickled":
@@ -640,7 +665,7 @@ class C09(Prop):
 
     def compare(self, case: dict, i: Any, driver: Any) -> str | None:
         if case["kind"] == "disk":
-            m = driver.ask({"op": "disk", "steps": [dict(st, t=MODEL_TAMPER.get(st["t"], st["t"])) for st in case["steps"]]})
+            m = driver.ask({"op": "disk", "steps": _model_steps(case["steps"])})
             ig = [{"hit": g["hit"], "unpickled": g["unpickled"]} for g in i["gets"]]
             if ig != m["gets"]:
                 return f"disk scenario: impl={ig} model={m['gets']}"
@@ -668,7 +693,7 @@ class C09(Prop):
 
     def nontrivial(self, case: dict, obs: Any) -> bool:
         if case["kind"] == "disk":
-            return any(s["t"] in TAMPERS or s["t"] == "crashSet" for s in case["steps"])
+            return any(s["t"] in TAMPERS or s["t"] in ("crashSet", "replay_shifted") for s in case["steps"])
         return obs.get("hits", 0) > 0
 
     def features(self, case: dict, obs: Any) -> dict:
